@@ -289,6 +289,14 @@ impl CompactionHandover {
             drained_labels
         };
 
+        #[cfg(feature = "verif")]
+        crate::verif::gate(
+            "compact.index_swapped",
+            self.shard_id as usize,
+            new_entries.first().map(|e| e.id as u64).unwrap_or(0),
+        )
+        .await;
+
         // Update segment IDs: remove all drained segments, add all new segments
         let retired_set: HashSet<&str> = drained_labels.iter().map(|s| s.as_str()).collect();
         let mut guard = self.segment_ids.write().unwrap();
